@@ -279,7 +279,7 @@ example : (Buffer.init.run [.setMode .safeEsc, .write [0xE2, 0x80], .setMode .un
   decide
 
 /-- Non-vacuity at L2: a format with a bad verb, an Unsafe(Safe(..)) wrapper and a redactable operand. -/
-example : ListOk [.unsafeW (.safeW (.leaf 0 .str "string".toUTF8.toList none false false)), .redactable (startB ++ [0x78] ++ endB) "markers.RedactableString".toUTF8.toList] := by
+example : ListOk [.unsafeW (.safeW (.leaf 0 .str ([0x73, 0x74, 0x72, 0x69, 0x6E, 0x67] /- "string" -/ : List UInt8) none false false)), .redactable (startB ++ [0x78] ++ endB) ([0x6D, 0x61, 0x72, 0x6B, 0x65, 0x72, 0x73, 0x2E, 0x52, 0x65, 0x64, 0x61, 0x63, 0x74, 0x61, 0x62, 0x6C, 0x65, 0x53, 0x74, 0x72, 0x69, 0x6E, 0x67] /- "markers.RedactableString" -/ : List UInt8)] := by
   intro v hv
   simp only [List.mem_cons, List.mem_nil_iff, or_false] at hv
   rcases hv with rfl | rfl
